@@ -112,15 +112,17 @@ class _RoutingFlowControl:
         now = self._loop.time()
         previous_busy_frame_time = self._last_busy_frame_time
         self._last_busy_frame_time = now
+        # N counts the frames of the moving time window - the pause, its random
+        # extension and the slowduration with the decrements that follow it
+        in_window = self._timer_task is not None and not self._timer_task.done()
+        if in_window and (now - previous_busy_frame_time) > BUSY_INCREMENT_COOLDOWN:
+            self._received_busy_frames += 1
         if self._wait_start_time is None:
             logger.info(
                 "RoutingBusy received: %s",
                 routing_busy,
             )
         else:
-            # only apply if we have already received a RoutingBusy frame and are still pausing
-            if (now - previous_busy_frame_time) > BUSY_INCREMENT_COOLDOWN:
-                self._received_busy_frames += 1
             logger.debug(
                 "RoutingBusy received: %s - %s ms since previous - number %s in moving time window",
                 routing_busy,
